@@ -521,6 +521,12 @@ func (m *Machine) eval(n *Node, e *env) Val {
 	if head.Kind != 's' {
 		fail("bad operator")
 	}
+	if i := strings.IndexByte(head.Sym, ':'); 0 < i {
+		// a package qualified operator names the same function as the bare one
+		h2 := *head
+		h2.Sym = strings.TrimLeft(head.Sym[i:], ":")
+		head = &h2
+	}
 	if mac := m.Macros[head.Sym]; mac != nil {
 		return m.eval(mac.expand(a), e)
 	}
